@@ -37,7 +37,11 @@ fn timer_event(ws: &[&str]) -> McEvent {
     McEvent::TimerFired {
         proc: ws[0].to_string(),
         timer: ws[1].to_string(),
-        timer_delay: McTime::from(delay_of(ws[2].parse().unwrap())),
+        // half units, or the raw bits of the double (`x<16 hex digits>`)
+        timer_delay: McTime::from(match ws[2].strip_prefix('x') {
+            Some(h) => f64::from_bits(u64::from_str_radix(h, 16).unwrap()),
+            None => delay_of(ws[2].parse().unwrap()),
+        }),
     }
 }
 
